@@ -536,6 +536,19 @@ func TestVerifC10CrashRestart(t *testing.T) {
 			k := ((c.CrashOp % len(c.Ops)) + len(c.Ops)) % len(c.Ops)
 			w := ((c.CrashW % (len(ref.writes[k]) + 1)) + len(ref.writes[k]) + 1) % (len(ref.writes[k]) + 1)
 			pts = append(pts, pt{k, w})
+			// plus one stop strictly between two store writes of one operation (where the
+			// write order matters), chosen by the same drawn numbers
+			var mid []pt
+			for kk := range c.Ops {
+				for ww := 1; ww < len(ref.writes[kk]); ww++ {
+					if kk != k || ww != w {
+						mid = append(mid, pt{kk, ww})
+					}
+				}
+			}
+			if len(mid) > 0 {
+				pts = append(pts, mid[(c.CrashOp*7+c.CrashW)%len(mid)])
+			}
 		}
 		nt := false
 		labels := []string{}
